@@ -632,7 +632,15 @@ void detsched_enable(uint64_t seed, int strategy, const struct detsched_params* 
     pthread_atfork(nullptr, nullptr, atfork_child);
   }
   Guard g;
-  State* s = new State; /* never freed: must survive static destruction */
+  if (S != nullptr && not g_enabled.load() && S->live.size() <= 1) { /* previous, finished session: recycle */
+    if (S->p.trace && S->p.trace != stderr)
+      fclose(S->p.trace);
+    for (Th* t : S->all)
+      delete t;
+    delete S;
+    S = nullptr;
+  }
+  State* s = new State; /* the last one is never freed: must survive static destruction */
   if (params)
     s->p = *params;
   else
